@@ -169,6 +169,10 @@ def numeric_probes(seed, n):
                 out.append(("hash", "State(%s) and the same state built from %s compare equal but hash differently" % (occ, how), {"call": "State.__hash__"}))
             if a_ != other:
                 out.append(("equality", "State(%s) differs from the same state built from %s" % (occ, how), {"call": "State.__eq__"}))
+    # states of different length are different states, also when one is the other padded with empty modes
+    for short, long_ in (([1, 0, 2], [1, 0, 2, 0, 0]), ([], [0]), ([2], [2, 0]), ([0, 1], [0, 1, 0])):
+        if lw.State(short) == lw.State(long_) or lw.State(long_) == lw.State(short):
+            out.append(("equality", "State(%s) == State(%s)" % (short, long_), {"call": "State.__eq__"}))
     # what random_unitary / random_permutation hand out is the caller's: changing it must not reach a later call with the same seed
     for fn, nm in ((random_unitary, "random_unitary"), (random_permutation, "random_permutation")):
         first = fn(3, seed=12345)
